@@ -195,7 +195,13 @@ def job_loop(family, shape, gemini, batch_size, solver="adam", mlcl=False, timeo
                     res["obligations"].append({"name": f"{tag}/step{si}/{pname}/shape", "verdict": "sat", "how": "syntactic"})
                     continue
                 for idx in np.ndindex(pvars.shape):
-                    theta = pvars[idx]
+                    theta = to_rat(pvars[idx])
+                    if not theta.f:
+                        # the proximal step of the previous update left an exact constant (a discarded feature): there is no symbol to
+                        # differentiate with respect to on this path; that case is the subject of the backprop/*/null-row jobs
+                        res["obligations"].append({"name": f"{tag}/step{si}/{pname}{list(idx)}", "verdict": "unknown",
+                                                   "how": "parameter entry is an exact constant on this path (see backprop/*/null-row)"})
+                        continue
                     ref = -diff.Differ(theta.f[0][0], uf_grad=env.stub.grad_table).drat(S)
                     o = harness.prove_zero(to_rat(garr[idx]) - ref, pc, timeout_s=timeout_q, name=f"{tag}/step{si}/{pname}{list(idx)}")
                     if o.get("how", "").startswith("solver"):
